@@ -59,6 +59,7 @@ func CheckPool(e *Env, prop string) (int, error) {
 		"evaluations":         a.Runs,
 		"distinct_nontrivial": len(a.NonTrivial),
 		"rule":                rule,
+		"bounds_depth":        fmt.Sprintf("%d (the stated bounds on history length / callers / operations are those of depth 1, the quick tier; the thorough tier runs at depth 2: twice the history length, up to 8 callers x 8 operations)", e.Depth),
 		"samples": e.samplesOrFetch(traced, 3, func() *Job {
 			return &Job{Bin: bin, Variant: "asm", World: "pool", Prop: prop, From: 0, N: 6, Extra: []string{"-trace"}}
 		}),
